@@ -1,5 +1,5 @@
 INIT MCInit
 NEXT MCNext
 CONSTRAINT Bound
-INVARIANTS OneDirection AgencyExclusive InFlightExpected ViewsAgree QuietOnlyWhenDone
+INVARIANTS OneDirection AgencyExclusive InFlightExpected ViewsAgree QuietOnlyWhenDone DoneIsFinal
 CHECK_DEADLOCK FALSE
